@@ -53,6 +53,22 @@ fn main() {
                 if req.is_empty() {
                     continue;
                 }
+                if std::env::var("VERIF_ISOLATE").map(|v| v == "1").unwrap_or(false) && (req.starts_with("asm ") || req.starts_with("asm2 ")) {
+                    // one child process per request: a stack overflow / abort of the code under test is an answer, not our death
+                    use std::io::Write as _;
+                    use std::process::{Command, Stdio};
+                    let exe = std::env::current_exe().unwrap();
+                    let mut ch = Command::new(exe).arg("replay").env("VERIF_ISOLATE", "0").stdin(Stdio::piped()).stdout(Stdio::piped()).stderr(Stdio::null()).spawn().unwrap();
+                    ch.stdin.take().unwrap().write_all(format!("{}\n", req).as_bytes()).unwrap();
+                    let o = ch.wait_with_output().unwrap();
+                    let txt = String::from_utf8_lossy(&o.stdout).to_string();
+                    if o.status.success() && txt.contains(" => ") {
+                        write!(out, "{}", txt).unwrap();
+                    } else {
+                        writeln!(out, "{} => ABORT", req).unwrap();
+                    }
+                    continue;
+                }
                 let ans = if req.starts_with("cli ") { l4::answer(req) } else if req.starts_with("asm ") || req.starts_with("asm2 ") || req.starts_with("run ") { l3::answer(req) } else if req.starts_with("x ") || req.starts_with("xr ") || req.starts_with("xs ") { l2::answer(req) } else { l1::answer(req) };
                 writeln!(out, "{} => {}", req, ans).unwrap();
             }
